@@ -107,8 +107,14 @@ def exec_HEAP(t):
                 x[np.unravel_index(idx, x.shape) if x.ndim > 1 else idx] = pyval(frac(p[3]))
             elif k == 'G':
                 x = objs[p[1]]
-                x.config.rounding = p[2]
-                x.config.overflow = p[3]
+                if len(out) % 2:
+                    x.config.rounding = p[2]
+                    x.config.overflow = p[3]
+                else:
+                    # the mirror properties of the object itself
+                    x.rounding = p[2]
+                    x.overflow = p[3]
+                    assert (x.config.rounding, x.config.overflow) == (p[2], p[3]) and (x.rounding, x.overflow) == (p[2], p[3])
             elif k == 'R':
                 objs[p[1]].reset()
             else:
